@@ -688,6 +688,7 @@ fn main() {
             "lm" => cmd_lm(&v),
             "solve_text" => cmd_solve_text(&v),
             "builder" => front::cmd_builder(&v),
+            "macro" => front::cmd_macro(&v),
             "pipe" => front::cmd_pipe(&v),
             o => json!({"unknown_cmd": o}),
         });
